@@ -146,7 +146,9 @@ Definition cover_at (fill : val) (recs : list rec1) (p : Z) : val :=
 Definition dense_of (fill : val) (recs : list rec1) (size : Z) : list val :=
   tabulate (cover_at fill recs) 0 size.
 Definition any_at (recs : list rec1) (p : Z) : val := vbool (existsb (covers p) recs).
-Definition count_at (recs : list rec1) (p : Z) : val := (len (filter (covers p) recs), 0).
+(* number of intervals covering base p; the value field of an interval record is its multiplicity (how many identical rows
+   the interval set contains: 1 for ordinary cases, large for the size-threshold cases) *)
+Definition count_at (recs : list rec1) (p : Z) : val := (sumZ (map (fun r : rec1 => fst (snd r)) (filter (covers p) recs)), 0).
 
 (* records with a chromosome number *)
 Notation grec := (Z * Z * Z * (Z * Z))%type (only parsing).        (* chromosome index, start, stop, value *)
